@@ -1,0 +1,19 @@
+//go:build verif
+
+// Verification hooks: re-export unexported pure functions so that the /verif
+// harness can drive them directly. Compiled only with -tags verif; no
+// existing line of the package is touched.
+
+package excelize
+
+import "time"
+
+// VerifTimeToExcelTime exposes timeToExcelTime.
+func VerifTimeToExcelTime(t time.Time, date1904 bool) (float64, error) {
+	return timeToExcelTime(t, date1904)
+}
+
+// VerifTimeFromExcelTime exposes timeFromExcelTime.
+func VerifTimeFromExcelTime(x float64, date1904 bool) time.Time {
+	return timeFromExcelTime(x, date1904)
+}
